@@ -131,6 +131,11 @@ func prove(argv []string) {
 				if ng := ex.SortLaws(fn, fc, excl, ""); ng != nil {
 					fmt.Printf("NOT GENERATED sortlaws %s: %s\n", ng.Func, ng.Why)
 				}
+			} else if fc.Flags["rulesmerge"] {
+				ex.OpaqueStrings = true
+				if ng := ex.RulesMerge(fn, fc); ng != nil {
+					fmt.Printf("NOT GENERATED rulesmerge %s: %s\n", ng.Func, ng.Why)
+				}
 			} else if ng := ex.VerifyFunc(fn, fc, c); ng != nil {
 				fmt.Printf("NOT GENERATED %s: %s\n", ng.Func, ng.Why)
 			}
@@ -159,6 +164,10 @@ func prove(argv []string) {
 				os.MkdirAll(*dump, 0o755)
 				os.WriteFile(fmt.Sprintf("%s/%03d.smt2", *dump, i), []byte(r.Query), 0o644)
 			}
+		}
+		if r.OK() && *dump != "" && os.Getenv("VERIF_DUMP_ALL") != "" && r.Ex != nil {
+			os.MkdirAll(*dump, 0o755)
+			os.WriteFile(fmt.Sprintf("%s/%03d.ok.smt2", *dump, i), []byte(r.Ex.Query(r.Obl)), 0o644)
 		}
 		fmt.Printf("%s %-8s %-10s %5dms  %s  [%s]\n", mark, r.Status, r.Solver, r.Ms, r.Obl.Name, r.Obl.Note)
 		if !r.OK() && r.Status == smt.Error {
